@@ -30,6 +30,22 @@ def KeyOK (V : Variant) : Req → Prop
   | .view l _ _ => KeyP V (normL l)
   | _ => True
 
+/-- the request sequences the cache theorems speak about: neither defect class is entered -/
+def Admissible (V : Variant) (k : Kind) (reqs : List Req) : Prop :=
+  ∀ r ∈ reqs, ReqOK V k r ∧ KeyOK V r
+
+/-- two requests for the same template (`exec` aside) -/
+def sameTarget : Req → Req → Prop
+  | .base _, .base _ => True
+  | .layout l _, .layout l' _ => normL l = normL l'
+  | .view l v _, .view l' v' _ => normL l = normL l' ∧ v = v'
+  | _, _ => False
+
+theorem specAns_sameTarget (src : Src) {a b : Req} (h : sameTarget a b) : specAns src a = specAns src b := by
+  cases a <;> cases b <;> simp only [sameTarget] at h <;> simp only [specAns]
+  · rw [h]
+  · rw [h.1, h.2]
+
 theorem clone_pristine (k : Kind) (t : Tmpl) (h : t.executed = false) :
     clone k t = some { defs := t.defs, executed := false } := by
   simp [clone, h]
@@ -541,7 +557,7 @@ theorem htmlBase_unc (V : Variant) (src : Src) :
   simp only [St.init]
   cases src.helpers with
   | none => rfl
-  | some fs => cases load TSet.empty fs <;> simp
+  | some fs => cases hl : load TSet.empty fs <;> simp [hl]
 
 theorem htmlLayout_unc (V : Variant) (src : Src) (n : Name) :
     htmlLayout V src false n St.init = (freshH (specLayout src n), St.init) := by
@@ -555,7 +571,7 @@ theorem htmlLayout_unc (V : Variant) (src : Src) (n : Name) :
     simp only [Option.map_some, clone_pristine]
     cases src.layout n with
     | none => rfl
-    | some fs => cases load b fs <;> simp
+    | some fs => cases hl : load b fs <;> simp [hl]
 
 theorem htmlView_unc (V : Variant) (src : Src) (l v : Name) :
     htmlView V src false l v St.init = (freshH (specView src l v), St.init) := by
@@ -568,14 +584,14 @@ theorem htmlView_unc (V : Variant) (src : Src) (l v : Name) :
   | none => rfl
   | some b =>
     simp only [Option.map_some, clone_pristine]
-    cases load b ((src.view v).getD []) <;> simp
+    cases hl : load b ((src.view v).getD []) <;> simp [hl]
 
 theorem textBase_unc (src : Src) : textBase src false St.init = (freshT (specBase src), St.init) := by
   unfold textBase specBase freshT
   simp only [St.init]
   cases src.helpers with
   | none => rfl
-  | some fs => cases load TSet.empty fs <;> simp
+  | some fs => cases hl : load TSet.empty fs <;> simp [hl]
 
 theorem textLayout_unc (src : Src) (n : Name) :
     textLayout src false n St.init = (freshT (specLayout src n), St.init) := by
@@ -589,7 +605,7 @@ theorem textLayout_unc (src : Src) (n : Name) :
     simp only [Option.map_some, clone_text]
     cases src.layout n with
     | none => rfl
-    | some fs => cases load b fs <;> simp
+    | some fs => cases hl : load b fs <;> simp [hl]
 
 theorem textView_unc (V : Variant) (src : Src) (l v : Name) :
     textView V src false l v St.init = (freshT (specView src l v), St.init) := by
@@ -604,7 +620,7 @@ theorem textView_unc (V : Variant) (src : Src) (l v : Name) :
     simp only [Option.map_some, clone_text]
     cases src.view v with
     | none => simp [load]
-    | some fs => cases load b fs <;> simp
+    | some fs => cases hl : load b fs <;> simp [hl]
 
 theorem step_unc (V : Variant) (k : Kind) (src : Src) (r : Req) :
     step V k src false St.init r = (specAns src r, St.init) := by
